@@ -51,7 +51,14 @@ func runNativeOnce(sc *Scenario) (string, bool) {
 	}
 	env.finalize()
 	if env.srv != nil {
-		env.srv.Close()
+		// httptest.Server.Close waits for outstanding requests; a handler that is (legitimately, or by the
+		// recorded C04 finding) still waiting for its context would hold it for ever
+		closed := make(chan struct{})
+		go func() { defer close(closed); env.srv.CloseClientConnections(); env.srv.Close() }()
+		select {
+		case <-closed:
+		case <-time.After(time.Second):
+		}
 	}
 	if env.cancel != nil {
 		defer env.cancel()
